@@ -158,11 +158,11 @@ CHECKS = {'C01': {'level': 'exploration',
                          'which files are generated is random (rapid); offsets per file are enumerated as stated (coverage.exhaustive is true only '
                          'in the thorough tier)'],
          'tests': [{'run': '^TestC13Snapshot$',
-                    'checks': {'quick': 60, 'thorough': 300},
+                    'checks': {'quick': 300, 'thorough': 400},
                     'shards': {'quick': 1, 'thorough': 12},
                     'timeout': {'quick': 900, 'thorough': 3400}},
                    {'run': '^TestC13Log$',
-                    'checks': {'quick': 80, 'thorough': 400},
+                    'checks': {'quick': 300, 'thorough': 600},
                     'shards': {'quick': 1, 'thorough': 4},
                     'timeout': {'quick': 900, 'thorough': 3400}}]},
  'C14': {'level': 'fault_enumeration',
